@@ -13,6 +13,7 @@
 import re
 
 from lib import mir, sym, ast as A
+from lib.keys import fn_key
 
 RMW = re.compile(r"std::sync::atomic::Atomic[\w<>]*>::(fetch_add|fetch_update|fetch_sub|compare_exchange|compare_exchange_weak|swap)$")
 ATOMIC_OTHER = re.compile(r"std::sync::atomic::Atomic[\w<>]*>::(load|store|get_mut|into_inner)$")
@@ -21,20 +22,34 @@ ATOMIC_OTHER = re.compile(r"std::sync::atomic::Atomic[\w<>]*>::(load|store|get_m
 def run(ctx, F):
     prog = F.lib
     S = sym.Sym(prog, inline_depth=0)
-    # ---------------------------------------------------------------- locate unique-id
-    ids = [b for b in prog.bodies.values() if b.kind == "Closure" and any("static" in c and c["static"].endswith("::CALL_ID") for c in mir.iter_consts_body(b.raw))]
-    counters = [s for s in prog.statics if s.endswith("::CALL_ID")]
+    # ---------------------------------------------------------------- locate unique-id (by its Sass registration, not by the static's name)
+    from rules.C34 import registry
+    reg = registry(prog, S)
+    impls = [i for i in reg.get(("module", "string", "unique-id"), []) if i]
+    if len(impls) != 1 or impls[0] not in prog.bodies:
+        ctx.anchor_lost("unique-id implementation", f"expected one registered implementation of sass:string.unique-id, found {impls}")
+        return
+    root = impls[0]
+    family = [bd for d, bd in prog.bodies.items() if d == root or d.startswith(root + "::")]
+    statics = sorted({c["static"] for bd in family for c in mir.iter_consts_body(bd.raw) if c.get("static")})
+    tls = [(bd, bi) for bd in family for bi, t in bd.calls() if "LocalKey<T>>::with" in (mir.callee_name(t) or "") or "LocalKey<T>>::try_with" in (mir.callee_name(t) or "")]
+    if tls:
+        bd, bi = tls[0]
+        ctx.fail("F3-atomic-step", "unique-id: increment and read are one atomic step", "the identifier is derived from thread-local state (LocalKey::with): ids are no longer drawn from one process-wide atomic step, "
+                 "so uniqueness across calls and threads rests on arithmetic between the thread-local and the shared counter that this rule cannot see", where=bd.where(bi))
+        return
+    counters = [st for st in statics if st in prog.statics and not prog.statics[st].get("freeze", False)] or [st for st in statics if st in prog.statics]
     if len(counters) != 1:
-        ctx.anchor_lost("unique-id counter", f"expected one CALL_ID static, found {counters}")
+        ctx.anchor_lost("unique-id counter", f"expected one shared counter static used by unique-id, found {counters}")
         return
     counter = counters[0]
     users = [b.def_ for b in prog.bodies.values() if any(c.get("static") == counter for c in mir.iter_consts_body(b.raw))]
     init_users = [u for u in users if u.startswith(counter)]
     body_users = [u for u in users if not u.startswith(counter)]
     if len(body_users) == 1:
-        ctx.ok("F8-counter-single-user", f"{counter} referenced only by {body_users[0]}", None)
+        ctx.ok("F8-counter-single-user", f"unique-id counter referenced only by {fn_key(body_users[0], prog)}", None)
     else:
-        ctx.fail("F8-counter-single-user", f"{counter} users", f"the unique-id counter is referenced by {body_users}: a second reader/writer can break uniqueness")
+        ctx.fail("F8-counter-single-user", "unique-id counter users", f"the unique-id counter {counter} is referenced by {body_users}: a second reader/writer can break uniqueness")
         if not body_users:
             return
     b = prog.bodies[body_users[0]]
@@ -107,7 +122,7 @@ def run(ctx, F):
     for f in tree.fn_list:
         if f["path"].endswith("string::create_module"):
             for n in A.walk(f["body"]):
-                if n.get("e") == "closure" and any(x.get("i") == "static" and x.get("path", "").endswith("CALL_ID") for x in walk_items(n)):
+                if n.get("e") == "closure" and any(x.get("i") == "static" and x.get("path", "").rsplit("::", 1)[-1] == counter.rsplit("::", 1)[-1].split("#")[0] for x in walk_items(n)):
                     fm = [m for m in A.walk(n["body"]) if m.get("e") == "fmt"]
                     if len(fm) == 1:
                         tmpl = fm[0]["template"]
